@@ -290,12 +290,15 @@ abbrev SS (κ α : Type) := GoMap κ (List α)
 def cloneW (wrap : SS κ α → SS κ α) (m : SS κ α) : SS κ α :=
   (wrap (duplicateMap m)).map (fun p => (p.1, Stream.clone p.2))
 
-/-- the `for k, v := range …` post-pass shared by Union / Intersection / MinusStreams -/
+/-- body of the `for k, v := range …` post-pass shared by Union / Intersection / MinusStreams:
+    `v2, ok := input[k]; if ok && v2 != nil && v2.Len() > 0 { result[k] = f(v, v2) }` -/
+def perKeyStep (f : List α → Option (List α) → List α) (input : SS κ α) (r : SS κ α) (p : κ × List α) : SS κ α :=
+  match mget input p.1 with
+  | some v2 => if v2.length > 0 then mset r p.1 (f p.2 (some v2)) else r
+  | none => r
+
 def perKey (f : List α → Option (List α) → List α) (input : SS κ α) (over result : SS κ α) : SS κ α :=
-  over.foldl (fun r p =>
-    match mget input p.1 with
-    | some v2 => if v2.length > 0 then mset r p.1 (f p.2 (some v2)) else r
-    | none => r) result
+  over.foldl (perKeyStep f input) result
 
 def unionW (wrap : SS κ α → SS κ α) (m : SS κ α) : Option (SS κ α) → SS κ α
   | none => m
